@@ -2251,3 +2251,129 @@ func ruleWritesFailAfterClose(c *Check, p *Program, rule string) {
 		c.Cond(n > 0 && bad == "", rule, name+"#fails-after-close", p.Pos(fn.Pos()), "in closedState "+name+" returns an error that cannot be nil", fmt.Sprintf("%d return(s) confined to the closed arm, each with a definite error", n), "the return at "+bad+" hands out the error latch, which is empty after a clean Close: the call reports (0, nil) and the data is silently dropped")
 	}
 }
+
+// ---------------------------------------------------------------------------
+// Effect rules.
+//
+// R17.15 / R05.12: observers are pure. Methods that only report something about the object (Size, the concurrency
+// test, the error-latch peek, the descriptor getters) perform no I/O on the user's streams and store to no field,
+// directly or in a module callee. (A reader of state that also parses, flushes or resets changes what later calls see.)
+func ruleObserversPure(c *Check, p *Program, rule string) {
+	obs := []struct{ rel, name string }{{"", "Reader.Size"}, {"", "Writer.isNotConcurrent"}, {"", "Reader.isNotConcurrent"}, {"internal/lz4stream", "Blocks.ErrorR"}, {"internal/lz4stream", "Frame.isLegacy"}}
+	n := 0
+	for _, o := range obs {
+		fn := p.Func(o.rel, o.name)
+		if fn == nil || len(fn.Blocks) == 0 {
+			continue // inlined away by a refactoring: nothing to check
+		}
+		n++
+		c.Funcs[fname(fn)] = true
+		bad := ""
+		seen := map[*ssa.Function]bool{}
+		var visit func(f *ssa.Function, depth int)
+		visit = func(f *ssa.Function, depth int) {
+			if seen[f] || depth > 3 {
+				return
+			}
+			seen[f] = true
+			allInstrs(f, func(in ssa.Instruction) {
+				switch x := in.(type) {
+				case *ssa.Store:
+					if lf := lastField(x.Addr); lf != "" {
+						bad = "stores to " + lf + " at " + p.InstrPos(in)
+					} else if _, isAl := x.Addr.(*ssa.Alloc); !isAl {
+						if _, isIA := x.Addr.(*ssa.IndexAddr); !isIA {
+							bad = "stores through a pointer at " + p.InstrPos(in)
+						}
+					}
+				case ssa.CallInstruction:
+					cc := x.Common()
+					if cc.IsInvoke() {
+						m := cc.Method.Name()
+						if m == "Read" || m == "Write" || m == "Close" {
+							bad = "calls " + m + " on a stream at " + p.InstrPos(in)
+						}
+						return
+					}
+					g := staticCallee(x)
+					if g == nil {
+						return
+					}
+					if g.Pkg != nil && (g.Pkg.Pkg.Path() == "io" || g.Pkg.Pkg.Path() == "io/ioutil" || g.Pkg.Pkg.Path() == "os") {
+						bad = "calls " + shortFn(g) + " at " + p.InstrPos(in)
+						return
+					}
+					if inModule(g) && len(g.Blocks) > 0 {
+						visit(g, depth+1)
+					}
+				}
+			})
+		}
+		visit(fn, 0)
+		c.Sites++
+		c.Cond(bad == "", rule, o.name+"#observer-is-pure", p.Pos(fn.Pos()), o.name+" only reports: it reads no stream and changes no field (directly or in a callee)", "no field store, no stream call", o.name+" "+bad+": a call that is supposed to observe changes what later calls see (a header consumed, an error dropped, a state changed)")
+	}
+	c.Cond(n >= 2, rule, "observers#found", "", "observer methods were found", fmt.Sprintf("%d analysed", n), fmt.Sprintf("only %d of the observer methods exist", n))
+}
+
+// R07.10 / R15.8: the user's streams are used only through the interface they were given as. A value that comes from
+// the source/sink fields (Writer.src, Reader.src, CompressingReader.src) or from the stream parameter of
+// ReadFrom / WriteTo / Reset / NewReader / NewWriter is never type-asserted or converted to another interface:
+// optional methods of the concrete stream (Grow, ReadFrom, Seek, Len, ...) would be driven by numbers or decisions
+// taken from untrusted input, and errors of such calls bypass the error rules.
+func ruleStreamsThroughInterface(c *Check, p *Program, rule string) {
+	isStreamType := func(t types.Type) bool {
+		it, ok := t.Underlying().(*types.Interface)
+		if !ok || it.NumMethods() == 0 || it.NumMethods() > 2 {
+			return false
+		}
+		for i := 0; i < it.NumMethods(); i++ {
+			switch it.Method(i).Name() {
+			case "Read", "Write", "Close":
+			default:
+				return false
+			}
+		}
+		return true
+	}
+	isUserStream := func(v ssa.Value) bool {
+		found := false
+		walkBack(v, false, func(x ssa.Value) bool {
+			switch y := x.(type) {
+			case *ssa.Parameter:
+				if isStreamType(y.Type()) {
+					found = true
+				}
+			case *ssa.UnOp:
+				if lf := loadField(y); lf == "Writer.src" || lf == "Reader.src" || lf == "CompressingReader.src" {
+					found = true
+				}
+			}
+			return !found
+		})
+		return found
+	}
+	n := 0
+	var bad []string
+	for _, fn := range moduleFuncs(p, pkgRoot, pkgStream) {
+		for _, g := range withAnon(fn) {
+			allInstrs(g, func(in ssa.Instruction) {
+				switch x := in.(type) {
+				case *ssa.TypeAssert:
+					if isStreamType(x.X.Type()) && isUserStream(x.X) {
+						n++
+						bad = append(bad, shortFn(g)+" asserts "+types.TypeString(x.AssertedType, nil)+" at "+p.InstrPos(in))
+					}
+				case *ssa.ChangeInterface:
+					if isStreamType(x.X.Type()) && isUserStream(x.X) {
+						if it, ok := x.Type().Underlying().(*types.Interface); ok && !isStreamType(x.Type()) && it.NumMethods() > 0 {
+							bad = append(bad, shortFn(g)+" converts the stream to "+types.TypeString(x.Type(), nil)+" at "+p.InstrPos(in))
+						}
+					}
+				}
+			})
+		}
+	}
+	c.Sites++
+	c.Cond(len(bad) == 0, rule, "streams#used-through-their-interface", "", "source and sink are used only as the io.Reader / io.Writer (io.ReadCloser) they were passed as: no type assertion or conversion to a wider interface", "no assertion on a user stream in the root package or lz4stream", strings.Join(bad, "; ")+": an optional method of the concrete stream is driven by data or decisions from the input, outside the error and allocation rules")
+}
